@@ -16,6 +16,7 @@ pub mod c14;
 pub mod c16;
 pub mod c17;
 pub mod c18;
+pub mod c19;
 pub mod c20;
 
 use crate::driver::CheckSpec;
@@ -48,6 +49,7 @@ pub fn spec(id: &str) -> Option<CheckSpec> {
         "C16" => Some(c16::spec()),
         "C17" => Some(c17::spec()),
         "C18" => Some(c18::spec()),
+        "C19" => Some(c19::spec()),
         "C20" => Some(c20::spec()),
         _ => None,
     }
